@@ -1,3 +1,4 @@
+import DSV.FactsOK.SrcC10
 import DSV.Generated.Facts
 import DSV.LLO.CodecOutcome
 /-!
